@@ -21,6 +21,7 @@ import binascii
 import json
 import marshal
 import os
+import re
 import struct
 import sys
 import types
@@ -1071,6 +1072,19 @@ def op_x_listing(req):
     return {"text": out.getvalue()}
 
 
+def op_x_o2l(req):
+    """C05: xdis.offset2line on this host"""
+    x = xd()
+    pairs = [(a, b) for a, b in req["starts"]]
+    out = []
+    for q in req["queries"]:
+        try:
+            out.append(x.offset2line(q, pairs))
+        except Exception as e:
+            out.append("raised %s: %s" % (type(e).__name__, e))
+    return {"lines": out}
+
+
 def op_x_stack_effect(req):
     """C15: xstack_effect computed under this host for (opcode, operand) pairs of one bytecode version"""
     x = xd()
@@ -1476,6 +1490,21 @@ def op_x_std(req):
             co = obj
         elif kind == "function":
             co = obj.__code__
+        if co is not None and fl is None:
+            # a position inside the code object (what Bytecode.from_traceback passes): still the same instructions
+            for pos in (0, 2, len(co.co_code) // 4 * 2):
+                try:
+                    ref = list(dis.Bytecode(co, current_offset=pos))
+                except Exception:
+                    continue
+                try:
+                    got = list(xs.Bytecode(co, current_offset=pos))
+                    xs.Bytecode(co, current_offset=pos).dis()
+                except Exception as e:
+                    fails.append(["Bytecode(current_offset)|%s|raised|%s" % (kind, type(e).__name__), "xdis.std.Bytecode(code, current_offset=%d) raised %s: %s" % (pos, type(e).__name__, e)])
+                    continue
+                compare_streams(kind, "Bytecode", ref, got)
+
         if co is not None:
             try:
                 a, b = sorted(set(dis.findlabels(co.co_code))), sorted(set(xs.findlabels(co.co_code)))
@@ -1910,6 +1939,49 @@ def op_x_lines_host(req):
                         break
             except Exception as e:
                 fails.append(["starts_line(portable copy)|raised|%s" % type(e).__name__, "co%d: %s" % (i, e)])
+    return {"fails": fails, "codes": n}
+
+
+def op_x_stream_host(req):
+    """C02 on this host: the instruction stream of NATIVE code objects (with and without a current position, the way
+    Bytecode.from_traceback builds it) against the host's own dis"""
+    import dis
+    x = xd()
+    try:
+        top = compile(req["src"], "<c02>", "exec", 0, True)
+    except (SyntaxError, ValueError, OverflowError, RecursionError, MemoryError) as e:
+        return {"reject": "%s: %s" % (type(e).__name__, e)}
+    opc = x.op_imports.get_opcode_module(sys.version_info, None)
+    fails = []
+    n = 0
+    for i, co in enumerate(walk_codes(top)):
+        if len(co.co_code) > 1200:
+            continue
+        n += 1
+        kw = {"show_caches": True} if (3, 11) <= sys.version_info[:2] < (3, 13) else {}
+        ref = [(r.offset, r.opcode, r.arg if r.opcode >= dis.HAVE_ARGUMENT or r.opcode in getattr(dis, "hasarg", ()) else None)
+               for r in dis.get_instructions(co, **kw)]
+        if sys.version_info[:2] >= (3, 13):
+            ref = [t for t in ref]
+        for what, f in (("Bytecode(native)", lambda: x.bytecode.Bytecode(co, opc)),
+                        ("Bytecode(native, current_offset=0)", lambda: x.bytecode.Bytecode(co, opc, current_offset=0)),
+                        ("Bytecode(native, current_offset=mid)", lambda: x.bytecode.Bytecode(co, opc, current_offset=len(co.co_code) // 4 * 2))):
+            try:
+                got = [(g.offset, g.opcode, g.arg) for g in f()]
+            except Exception as e:
+                fails.append(["%s|raised|%s" % (what, type(e).__name__), "co%d %s: %s raised %s" % (i, co.co_name, what, e)])
+                continue
+            if sys.version_info[:2] >= (3, 13):
+                got = [t for t in got if opc.opname[t[1]] != "CACHE"]
+            if [t[:2] for t in got] != [t[:2] for t in ref]:
+                k = next((j for j in range(min(len(got), len(ref))) if got[j][:2] != ref[j][:2]), min(len(got), len(ref)))
+                fails.append(["%s|opcode-offset" % what, "co%d %s: %s row %d is %s, dis has %s (%d / %d rows)" % (
+                    i, co.co_name, what, k, got[k:k + 1], ref[k:k + 1], len(got), len(ref))])
+            else:
+                for g, r in zip(got, ref):
+                    if r[2] is not None and g[2] != r[2]:
+                        fails.append(["%s|operand" % what, "co%d %s: %s at %d: operand %r, dis %r" % (i, co.co_name, what, g[0], g[2], r[2])])
+                        break
     return {"fails": fails, "codes": n}
 
 
